@@ -183,20 +183,96 @@ type armResult struct {
 	order    []*Value
 }
 
+// altJoin: the first block (in reverse post-order) reachable from both
+// successors of b without passing through b; a more local join than the
+// immediate post-dominator when early returns push the latter to the exit.
+func altJoin(fn *ssa.Function, b *ssa.BasicBlock) *ssa.BasicBlock {
+	if len(b.Succs) != 2 {
+		return nil
+	}
+	reach := func(from *ssa.BasicBlock) map[*ssa.BasicBlock]bool {
+		seen := map[*ssa.BasicBlock]bool{}
+		var dfs func(x *ssa.BasicBlock)
+		dfs = func(x *ssa.BasicBlock) {
+			if seen[x] || x == b {
+				return
+			}
+			seen[x] = true
+			for _, s := range x.Succs {
+				dfs(s)
+			}
+		}
+		dfs(from)
+		return seen
+	}
+	r0, r1 := reach(b.Succs[0]), reach(b.Succs[1])
+	// reverse post-order of the forward CFG
+	var order []*ssa.BasicBlock
+	seen := map[*ssa.BasicBlock]bool{}
+	var dfs func(x *ssa.BasicBlock)
+	dfs = func(x *ssa.BasicBlock) {
+		seen[x] = true
+		for _, s := range x.Succs {
+			if !seen[s] {
+				dfs(s)
+			}
+		}
+		order = append(order, x)
+	}
+	dfs(fn.Blocks[0])
+	for i := len(order) - 1; i >= 0; i-- {
+		x := order[i]
+		if r0[x] && r1[x] {
+			return x
+		}
+	}
+	return nil
+}
+
 // tryMerge attempts if-conversion of the symbolic branch at the top frame.
 func (ex *Exec) tryMerge(g *G, f *Frame, c *Term) bool {
 	if ex.NoMerge || ex.noMerge[f.block] || ex.spec > 24 {
 		return false
 	}
-	J, ok := f.info.ipdom[f.block]
+	b := f.block
+	J, ok := f.info.ipdom[b]
 	if !ok {
 		return false
 	}
+	if J == nil {
+		// early returns make the exit the post-dominator: try a local join first
+		f.info.mu.Lock()
+		aj, done := f.info.alt[b]
+		if !done {
+			aj = altJoin(f.fn, b)
+			f.info.alt[b] = aj
+		}
+		f.info.mu.Unlock()
+		if aj != nil && !ex.noMergeAlt[b] {
+			if ex.tryMergeAt(g, f, c, aj) {
+				return true
+			}
+			ex.noMergeAlt[b] = true
+			delete(ex.noMerge, b)
+		}
+	}
+	return ex.tryMergeAt(g, f, c, J)
+}
+
+func (ex *Exec) tryMergeAt(g *G, f *Frame, c *Term, J *ssa.BasicBlock) bool {
 	depth := len(g.frames)
 	// snapshot
 	savedRegs := append([]Value(nil), f.regs...)
 	savedBlock, savedPrev, savedPC := f.block, f.prev, f.pc
 	savedDefers := len(f.defers)
+	var caller *Frame
+	var callerRegs []Value
+	callerPC := 0
+	if depth >= 2 {
+		caller = g.frames[depth-2]
+		callerRegs = append([]Value(nil), caller.regs...)
+		callerPC = caller.pc
+	}
 	savedPCLen := len(ex.pc)
 	_ = savedPCLen
 	savedUndo := ex.undo
@@ -235,9 +311,23 @@ func (ex *Exec) tryMerge(g *G, f *Frame, c *Term) bool {
 			copy(f.regs, savedRegs)
 			f.block, f.prev, f.pc = savedBlock, savedPrev, savedPC
 			f.defers = f.defers[:savedDefers]
+			f.phiOv, f.hasPhiOv = nil, false
+			if caller != nil {
+				copy(caller.regs, callerRegs)
+				caller.pc = callerPC
+			}
+			ex.hasArmRet = false
 			g.status = gRunnable
 			if r != nil {
-				if _, isAbort := r.(mergeAbort); isAbort {
+				if ab, isAbort := r.(mergeAbort); isAbort {
+					if debugMerge {
+						println("merge abort at", f.fn.String(), "block", savedBlock.Index, ":", ab.why)
+					}
+					res, ok = nil, false
+					return
+				}
+				if _, isUns := r.(unsupported); isUns {
+					// e.g. a symbolic index inside the arm: forking may make it concrete
 					res, ok = nil, false
 					return
 				}
@@ -253,6 +343,8 @@ func (ex *Exec) tryMerge(g *G, f *Frame, c *Term) bool {
 		if ex.steps-savedSteps > budget {
 			panic(mergeAbort{"arm budget"})
 		}
+		ex.armDepths = append(ex.armDepths, depth)
+		defer func() { ex.armDepths = ex.armDepths[:len(ex.armDepths)-1] }()
 		// capture the return value by intercepting ret: run until depth drops
 		res = &armResult{}
 		returned := ex.runArm(g, depth, J, res)
@@ -267,12 +359,17 @@ func (ex *Exec) tryMerge(g *G, f *Frame, c *Term) bool {
 					idx = i
 				}
 			}
-			for _, in := range J.Instrs {
-				phi, isPhi := in.(*ssa.Phi)
-				if !isPhi {
-					break
+			if f.hasPhiOv {
+				res.phis = f.phiOv
+				f.phiOv, f.hasPhiOv = nil, false
+			} else {
+				for _, in := range J.Instrs {
+					phi, isPhi := in.(*ssa.Phi)
+					if !isPhi {
+						break
+					}
+					res.phis = append(res.phis, ex.reg(f, phi.Edges[idx]))
 				}
-				res.phis = append(res.phis, ex.reg(f, phi.Edges[idx]))
 			}
 		}
 		return res, true
@@ -385,23 +482,29 @@ func (ex *Exec) tryMerge(g *G, f *Frame, c *Term) bool {
 	for _, r := range regMerged {
 		f.regs[r.i] = r.v
 	}
-	if debugMerge {
+	if debugMerge && false {
 		println("merge at", f.fn.String(), "block", savedBlock.Index, "returned", a.returned, "writes", len(merged))
 	}
 	for _, w := range merged {
 		ex.write(w.p, w.v)
 	}
 	if a.returned {
+		if n := len(ex.armDepths); n > 0 && ex.armDepths[n-1] == depth {
+			// the returning frame is the base frame of an enclosing arm: hand the
+			// value to that arm instead of popping the frame
+			ex.armRet, ex.hasArmRet = retv, true
+			return true
+		}
 		// pop frame f delivering retv
 		ex.retMerged(g, f, retv)
 		return true
 	}
+	// enter J with the merged phi inputs pending: an enclosing arm that stops at
+	// J (pc == 0) picks them up; otherwise doPhis applies them
 	f.prev = a.pred
 	f.block = J
-	for i, v := range phis {
-		ex.setReg(f, J.Instrs[i].(*ssa.Phi), v)
-	}
-	f.pc = len(phis)
+	f.pc = 0
+	f.phiOv, f.hasPhiOv = phis, len(phis) > 0
 	return true
 }
 
@@ -409,6 +512,11 @@ func (ex *Exec) tryMerge(g *G, f *Frame, c *Term) bool {
 // return value of that frame.
 func (ex *Exec) runArm(g *G, depth int, J *ssa.BasicBlock, res *armResult) (returned bool) {
 	for {
+		if ex.hasArmRet && len(g.frames) == depth {
+			res.ret = ex.armRet
+			ex.hasArmRet = false
+			return true
+		}
 		if len(g.frames) == depth {
 			f := g.frames[depth-1]
 			if J != nil && f.block == J && f.pc == 0 {
